@@ -156,6 +156,23 @@ Section Top.
     apply (alloc_spread_section topo cands ex0 down (map (chain_of topo) ex0) n idx idx_len idx_level_ok idx_key idx_knd
                                 (nest_dom Hn) eq_refl ex_chain_len num o perms R Ha). lia.
   Qed.
+  Lemma dom0_known h : known cands ex0 h -> dom topo 0 h = h.
+  Proof.
+    intros Hk. destruct (topo_uniform_spec topo Hu) as (_ & _ & Hnonempty).
+    destruct (chain_of_hd topo h (known_in_topo h Hk) Hnonempty) as [Hhd _].
+    unfold dom. destruct (chain_of topo h); simpl in *; auto.
+  Qed.
+
+  Lemma top_complete num o perms :
+    topo_nested topo = true -> (0 < num)%nat ->
+    allocate idx num (map (chain_of topo) ex0) ex0 down o perms = None ->
+    (length (eligible_hosts cands ex0 down) < num)%nat.
+  Proof.
+    intros Hn Hnum Ha.
+    apply (alloc_complete_section topo cands ex0 down (map (chain_of topo) ex0) n idx idx_len idx_level_ok idx_key idx_knd
+                                  (nest_dom Hn) eq_refl ex_chain_len dom0_known Hnd num o perms); auto.
+    pose proof n_pos. lia.
+  Qed.
 End Top.
 
 (* ---------- verdict of the model's own results ---------- *)
@@ -192,6 +209,37 @@ Proof.
     destruct (topo_uniform topo && topo_nested topo) eqn:E; simpl; auto.
     apply andb_true_iff in E as [_ Hn].
     rewrite (top_spread topo cands cands' ex0 down Hu Hc Hnd Hperm Hne Hex num o perms R Hn Ha). reflexivity.
+Qed.
+
+Lemma verdict_none_ok topo cands cands' ex0 down num o perms :
+  topo_uniform topo = true -> (forall h, In h cands -> In h (map (hd 0) topo)) -> NoDup cands ->
+  Permutation cands' cands ->
+  (forall e, In e ex0 -> In e (map (hd 0) topo)) -> topo_nested topo = true ->
+  allocate (build_index (map (chain_of topo) cands')) num (map (chain_of topo) ex0) ex0 down o perms = None ->
+  alloc_verdict topo cands ex0 down num false None = V_OK.
+Proof.
+  intros Hu Hc Hnd Hperm Hex Hn Ha. unfold alloc_verdict.
+  destruct num as [|num']; [rewrite !andb_false_r; reflexivity|].
+  destruct cands as [|c0 ct] eqn:Ec.
+  - reflexivity.
+  - rewrite <- Ec in *.
+    assert (Hne : cands <> []) by (rewrite Ec; discriminate).
+    pose proof (top_complete topo cands cands' ex0 down Hu Hc Hnd Hperm Hne Hex (S num') o perms Hn (Nat.lt_0_succ _) Ha) as Hlt.
+    assert (Hleb : Nat.leb (S num') (length (eligible_hosts cands ex0 down)) = false) by (apply Nat.leb_gt; exact Hlt).
+    rewrite Hleb. reflexivity.
+Qed.
+
+Lemma verdict_model_ok topo cands cands' ex0 down num o perms :
+  topo_uniform topo = true -> (forall h, In h cands -> In h (map (hd 0) topo)) -> NoDup cands ->
+  Permutation cands' cands ->
+  (forall e, In e ex0 -> In e (map (hd 0) topo)) -> topo_nested topo = true ->
+  alloc_verdict topo cands ex0 down num false
+    (allocate (build_index (map (chain_of topo) cands')) num (map (chain_of topo) ex0) ex0 down o perms) = V_OK.
+Proof.
+  intros Hu Hc Hnd Hperm Hex Hn.
+  destruct (allocate (build_index (map (chain_of topo) cands')) num (map (chain_of topo) ex0) ex0 down o perms) as [R|] eqn:Ha.
+  - eapply verdict_some_ok; eauto.
+  - eapply verdict_none_ok; eauto.
 Qed.
 
 (* ---------- a concrete witness for the finding, and non-vacuity ---------- *)
